@@ -429,6 +429,8 @@ func c14Run(c *fw.Case, env *fw.Env) *fw.Obs {
 		return c14CLI(c, env, o, &p)
 	case "foreign-reader":
 		return c14ForeignReader(c, env, o, &p, class)
+	case "foreign-writer":
+		return c14ForeignWriter(c, o, &p, class)
 	case "reapply":
 		return c14Reapply(c, o, &p, class)
 	case "sequence":
@@ -736,6 +738,9 @@ func init() {
 				if len(mix) >= 2 && len(mix) <= 3 {
 					l.Add("foreign-reader", c14Params{K: len(mix), Existing: mix, Mode: "foreign-reader"}, 0)
 				}
+				if len(mix) <= 3 {
+					l.Add("foreign-writer", c14Params{K: len(mix), Existing: mix, Mode: "foreign-writer"}, 0)
+				}
 				l.Add("reapply", c14Params{K: len(mix), Existing: mix, Mode: "reapply"}, 0)
 				if len(mix) >= 2 {
 					l.Add("fail-discard", c14Params{K: len(mix), Existing: mix, Mode: "fail-discard"}, 0)
@@ -754,4 +759,115 @@ func init() {
 		},
 		Run: c14Run,
 	})
+}
+
+// writerDuringRead is the ref store with a foreign writer: while the at-th read of the store runs, another connection
+// of the same (shared-cache) database is inside a write transaction on every table. The read fails with "table is
+// locked" - for a listing only when its rows are fetched.
+type writerDuringRead struct {
+	ref.Store
+	sdb    *sql.DB
+	n, at  int
+	locked bool
+}
+
+func (s *writerDuringRead) during(f func()) {
+	s.n++
+	if s.n != s.at {
+		f()
+		return
+	}
+	tx, err := s.sdb.Begin()
+	if err == nil {
+		ok := true
+		for _, t := range []string{"refs", "reflogs", "transactions"} {
+			if _, err := tx.Exec("DELETE FROM " + t + " WHERE 0"); err != nil {
+				ok = false
+			}
+		}
+		s.locked = ok
+	}
+	f()
+	if tx != nil {
+		tx.Rollback()
+	}
+}
+
+func (s *writerDuringRead) Get(key string) (v []byte, err error) {
+	s.during(func() { v, err = s.Store.Get(key) })
+	return
+}
+
+func (s *writerDuringRead) Filter(pre, not []string) (m map[string][]byte, err error) {
+	s.during(func() { m, err = s.Store.Filter(pre, not) })
+	return
+}
+
+func (s *writerDuringRead) FilterKey(pre, not []string) (k []string, err error) {
+	s.during(func() { k, err = s.Store.FilterKey(pre, not) })
+	return
+}
+
+func (s *writerDuringRead) GetTransaction(id uuid.UUID) (t *ref.Transaction, err error) {
+	s.during(func() { t, err = s.Store.GetTransaction(id) })
+	return
+}
+
+func (s *writerDuringRead) GetTransactionLogs(id uuid.UUID) (l map[string]*ref.Reflog, err error) {
+	s.during(func() { l, err = s.Store.GetTransactionLogs(id) })
+	return
+}
+
+// c14ForeignWriter: Commit while, during its j-th read of the ref store, another connection is writing; for every j.
+func c14ForeignWriter(c *fw.Case, o *fw.Obs, p *c14Params, class string) *fw.Obs {
+	for j := 1; j < 200; j++ {
+		w, err := c14Setup(p)
+		if err != nil {
+			o.Status = "inconclusive"
+			o.Note = err.Error()
+			return o
+		}
+		st0 := c14Observe(w)
+		rs := &writerDuringRead{Store: w.rs, sdb: w.sdb, at: j}
+		var ferr error
+		how := fmt.Sprintf("another connection is inside a write transaction during read %d of the ref store", j)
+		pn := fw.Catch(func() { _, ferr = transaction.Commit(w.db, rs, w.id) })
+		if rs.n < j {
+			w.sdb.Close()
+			break // fewer reads than that
+		}
+		o.Ev("oracle_evaluations", 1)
+		o.Ev("commits_with_foreign_writer", 1)
+		if rs.locked {
+			o.Ev("foreign_writer_held_its_locks", 1)
+		}
+		if pn != "" {
+			o.Violate("panic/foreign-writer/"+class, "%s: %s", how, pn)
+			w.sdb.Close()
+			return o
+		}
+		if ferr == nil {
+			if !c14CheckCommitted(o, w, st0, class+"/foreign-writer", how+", Commit returned nil") {
+				w.sdb.Close()
+				return o
+			}
+		} else {
+			o.Ev("faults_surfaced_as_error", 1)
+			var rerr error
+			if pn := fw.Catch(func() { _, rerr = transaction.Commit(w.db, w.rs, w.id) }); pn != "" || rerr != nil {
+				o.Violate("rerun-fails/"+class+"/foreign-writer", "%s: first attempt failed with %v; the re-run without the writer: %v %s", how, ferr, rerr, pn)
+				w.sdb.Close()
+				return o
+			}
+			o.Ev("reruns", 1)
+			if !c14CheckCommitted(o, w, st0, class+"/foreign-writer", how+", then re-run") {
+				w.sdb.Close()
+				return o
+			}
+		}
+		w.sdb.Close()
+	}
+	o.Key("foreign-writer/%v", p.Existing)
+	o.Sample = map[string]interface{}{"mode": p.Mode, "branches": p.K, "existing": p.Existing}
+	return o
 }
